@@ -34,6 +34,13 @@ func Init(job string) (*LQClient, error) {
 		return nil, err
 	}
 
+	// URLs left CLAIMED by an earlier run of this job (killed, or stopped while they were between the
+	// queue and the reactor) are held by nobody any more: hand them back, or they are never crawled
+	if _, err := dbWrite.Exec("UPDATE urls SET status = 'FRESH' WHERE status = 'CLAIMED'"); err != nil {
+		logger.Error("error resetting the URLs claimed by an earlier run", "err", err.Error(), "func", "lq.Init")
+		return nil, err
+	}
+
 	dbWriteSqlc := sqlc_model.New(dbWrite)
 
 	return &LQClient{
